@@ -852,16 +852,47 @@ func (cs *ChainState) RestoreBlockAndState(blockHeaderHash types.HeaderHash) err
 	return cs.restoreWithState(blockHeaderHash, block, state, unmatchedKeyVals)
 }
 
+// ImportCheckpoint is the head a block import starts from. A block whose parent
+// is not the head makes the node switch forks (RestoreBlockAndState cuts the
+// block list and the ancestry back to that parent) before the block has been
+// validated; the checkpoint keeps what such a switch discards.
+type ImportCheckpoint struct {
+	head     types.HeaderHash
+	hasHead  bool
+	blocks   []types.Block
+	ancestry types.Ancestry
+}
+
+// CheckpointImport records the current head, block list and ancestry.
+func (cs *ChainState) CheckpointImport() ImportCheckpoint {
+	cp := ImportCheckpoint{blocks: cs.unfinalizedBlocks.snapshot(), ancestry: cs.GetAncestry()}
+	if n := len(cp.blocks); n > 0 {
+		if head, err := hash.ComputeBlockHeaderHash(cp.blocks[n-1].Header); err == nil {
+			cp.head, cp.hasHead = head, true
+		}
+	}
+	return cp
+}
+
 // RollbackFailedImport undoes a block import whose state transition failed.
 // The block was added to the block list before the transition ran, and the
 // transition updates the posterior and intermediate stores (and parts of the
 // prior state in place) as it goes; none of that may survive a rejection.
-// The node goes back to the parent: prior state re-read from the committed
-// key-values, block list and ancestry cut at the parent, working stores empty.
-func (cs *ChainState) RollbackFailedImport(parentHeaderHash types.HeaderHash) error {
+// The node goes back to the head it was on when the import started: prior
+// state re-read from the committed key-values, block list and ancestry as
+// they were (also when the rejected block had made the node switch to another
+// fork first), working stores empty.
+func (cs *ChainState) RollbackFailedImport(cp ImportCheckpoint) error {
 	cs.GetPosteriorStates().SetState(*NewPosteriorStates().state)
 	cs.intermediateStates = NewIntermediateStates()
-	return cs.RestoreBlockAndState(parentHeaderHash)
+	var err error
+	if cp.hasHead {
+		err = cs.RestoreBlockAndState(cp.head)
+	}
+	cs.unfinalizedBlocks.restore(cp.blocks)
+	cs.ancestry.Clear()
+	cs.ancestry.AppendAncestry(cp.ancestry)
+	return err
 }
 
 // RestoreStateFromSnapshot restores block/ancestry management like RestoreBlockAndState,
